@@ -6,248 +6,239 @@ import (
 	"strconv"
 )
 
-// C17: constants and small structural facts of the collector (scanner worker, line reader, parsers).
+// C17: constants and small structural facts of the collector (scanner worker, line reader, parsers). The structural
+// facts are read from the flattened statement sequence of the anchored functions (c17_flow.go), following same-package
+// calls, so that behaviour-preserving refactorings keep them; what cannot be identified is a problem(...).
 func init() {
 	generators["C17"] = func() {
 		l := newLean("C17", "Facts about pkg/scanner/worker.go, scanner.go, config.go and pkg/scanner/parser/*.go.")
+		sp := loadFlowPkg("pkg/scanner")
+		pp := loadFlowPkg("pkg/scanner/parser")
 
-		// --- worker.run: where is w.state sampled relative to NextRecord? --------------------------------
-		wf := parseFile("pkg/scanner/worker.go")
-		run := funcDecl(wf, "worker", "run")
-		sampledBefore, stopTestReadsState := false, false
-		if run == nil {
+		// --- worker loop: where is w.state sampled relative to NextRecord? ---------------------------------
+		sampledBefore := false
+		if run := sp.method("worker", "run"); run == nil {
 			problem("scanner.worker.run not found")
 		} else {
-			var loop *ast.ForStmt
-			ast.Inspect(run.Body, func(n ast.Node) bool {
-				if f, ok := n.(*ast.ForStmt); ok && loop == nil {
-					loop = f
-					return false
-				}
-				return true
-			})
-			if loop == nil {
-				problem("scanner.worker.run: for loop not found")
+			evs := sp.flatten(run, 2)
+			iNext := flowIndex(evs, "call", "NextRecord")
+			if iNext < 0 || len(evs[iNext].loops) == 0 {
+				problem("scanner worker: no loop with a NextRecord call found in worker.run or the functions it calls")
 			} else {
-				loadsState := func(n ast.Node) bool {
-					found := false
-					ast.Inspect(n, func(m ast.Node) bool {
-						if c, ok := m.(*ast.CallExpr); ok {
-							if se, ok := c.Fun.(*ast.SelectorExpr); ok && se.Sel.Name == "LoadInt32" {
-								found = true
-							}
+				loop := evs[iNext].loops[len(evs[iNext].loops)-1]
+				before, after := false, false
+				for i, e := range evs {
+					if e.kind == "call" && e.name == "LoadInt32" && flowInLoop(e, loop) {
+						if i < iNext {
+							before = true
+						} else {
+							after = true
 						}
-						return true
-					})
-					return found
-				}
-				callsNext := func(n ast.Node) bool {
-					found := false
-					ast.Inspect(n, func(m ast.Node) bool {
-						if c, ok := m.(*ast.CallExpr); ok {
-							if se, ok := c.Fun.(*ast.SelectorExpr); ok && se.Sel.Name == "NextRecord" {
-								found = true
-							}
-						}
-						return true
-					})
-					return found
-				}
-				nextIdx, loadIdx := -1, -1
-				for i, st := range loop.Body.List {
-					if callsNext(st) && nextIdx < 0 {
-						nextIdx = i
-					}
-					if as, ok := st.(*ast.AssignStmt); ok && loadsState(as) && loadIdx < 0 {
-						loadIdx = i
-					}
-					if ifs, ok := st.(*ast.IfStmt); ok && i > nextIdx && nextIdx >= 0 && loadsState(ifs.Cond) {
-						stopTestReadsState = true
 					}
 				}
-				if nextIdx < 0 {
-					problem("scanner.worker.run: NextRecord call not found in the loop")
+				if !before && !after {
+					problem("scanner worker: the read loop does not load w.state at all")
 				}
-				sampledBefore = loadIdx >= 0 && nextIdx >= 0 && loadIdx < nextIdx && !stopTestReadsState
+				sampledBefore = before && !after
 			}
 		}
-		l.p("/-- in `worker.run` the state (`wsRunUntilEof`) is sampled into a local before `NextRecord`, and the stop")
-		l.p("test after `sendOrSleep` does not read `w.state` again (fix 91d80cf) -/")
+		l.p("/-- in the worker's read loop the state (`wsRunUntilEof`) is loaded before `NextRecord` and not again after it")
+		l.p("in the same iteration (fix 91d80cf) -/")
 		l.p("def stateSampledBeforeNextRecord : Bool := %s", leanBool(sampledBefore))
 
-		// --- waitConfirm: setOffset only inside the confCh case -------------------------------------------
-		wc := funcDecl(wf, "worker", "waitConfirm")
-		setInConfCase, setElsewhere := false, false
-		if wc == nil {
-			problem("scanner.worker.waitConfirm not found")
-		} else {
-			ast.Inspect(wc.Body, func(n ast.Node) bool {
-				cc, ok := n.(*ast.CommClause)
-				if !ok {
-					return true
+		// --- setOffset only after the confirm rendez-vous: every setOffset call of worker.go sits in a select case whose
+		//     communication is a channel send ---------------------------------------------------------------------------
+		setOK, nSet := true, 0
+		nEvent, ownSlice, ownKnown := 0, true, true
+		for _, fd := range sp.funcs {
+			if fset.Position(fd.Pos()).Filename == "" || !flowHasSuffix(fset.Position(fd.Pos()).Filename, "/worker.go") {
+				continue
+			}
+			for _, e := range sp.flatten(fd, 0) {
+				if e.kind != "call" {
+					continue
 				}
-				_, isSend := cc.Comm.(*ast.SendStmt)
-				for _, st := range cc.Body {
-					ast.Inspect(st, func(m ast.Node) bool {
-						if c, ok := m.(*ast.CallExpr); ok {
-							if se, ok := c.Fun.(*ast.SelectorExpr); ok && se.Sel.Name == "setOffset" {
-								if isSend {
-									setInConfCase = true
-								} else {
-									setElsewhere = true
-								}
+				switch e.name {
+				case "setOffset":
+					nSet++
+					inSendCase := false
+					for _, a := range e.anc {
+						if cc, ok := a.(*ast.CommClause); ok {
+							if _, isSend := cc.Comm.(*ast.SendStmt); isSend {
+								inSendCase = true
 							}
 						}
-						return true
-					})
-				}
-				return false
-			})
-			// any setOffset outside a comm clause?
-			cnt := 0
-			ast.Inspect(wf, func(n ast.Node) bool {
-				if c, ok := n.(*ast.CallExpr); ok {
-					if se, ok := c.Fun.(*ast.SelectorExpr); ok && se.Sel.Name == "setOffset" {
-						cnt++
+					}
+					if !inSendCase {
+						setOK = false
+					}
+				case "NewEvent":
+					if len(e.call.Args) < 2 {
+						continue
+					}
+					nEvent++
+					switch fresh := freshSlice(e.call.Args[1], fd); fresh {
+					case 0:
+						ownSlice = false
+					case -1:
+						ownKnown = false
 					}
 				}
-				return true
-			})
-			if cnt != 1 {
-				setElsewhere = true
 			}
 		}
-		l.p("/-- the only `setOffset` call of the worker is in `waitConfirm`, inside the `case w.confCh <- struct{}{}` -/")
-		l.p("def setOffsetOnlyAfterConfirm : Bool := %s", leanBool(setInConfCase && !setElsewhere))
+		if nSet == 0 {
+			problem("scanner worker: no setOffset call found in worker.go")
+		}
+		l.p("/-- every `setOffset` call of the worker is inside a `select` case whose communication is the send on the")
+		l.p("confirmation channel -/")
+		l.p("def setOffsetOnlyAfterConfirm : Bool := %s", leanBool(setOK && nSet > 0))
+		if nEvent == 0 {
+			problem("scanner worker: no model.NewEvent call found in worker.go")
+		} else if !ownKnown {
+			problem("scanner worker: cannot tell whether the record slice given to model.NewEvent is a fresh copy")
+		}
+		l.p("/-- `model.NewEvent` is handed a fresh copy of the record slice (`append(<new>, recs...)` / `make` + copy), not the")
+		l.p("worker's own slice, which the loop clears and reuses (fix 0585c11) -/")
+		l.p("def eventGetsOwnRecordSlice : Bool := %s", leanBool(ownSlice && nEvent > 0))
 
-		// --- fix 0585c11: the event handed to the consumer gets its own copy of the record slice ------------------
-		ownSlice := false
-		if sos := funcDecl(wf, "worker", "sendOrSleep"); sos == nil {
-			problem("scanner.worker.sendOrSleep not found")
+		// --- readLine: a partial line is kept in r.pend and io.EOF reported; no sleep (fix 7a8317a) ----------------------
+		keepsPartial := false
+		if rl := pp.method("lineReader", "readLine"); rl == nil {
+			problem("parser.lineReader.readLine not found")
 		} else {
-			found := false
-			ast.Inspect(sos.Body, func(n ast.Node) bool {
-				c, ok := n.(*ast.CallExpr)
-				if !ok {
+			evs := pp.flatten(rl, 2)
+			sleeps := flowCount(evs, "call", "Sleep") > 0
+			eofKeeps, lineReturn, found := false, false, false
+			// branches: an if (guard = its condition) or a case clause (guard = its expressions)
+			ast.Inspect(rl.Body, func(n ast.Node) bool {
+				var guard []ast.Node
+				var body []ast.Stmt
+				switch x := n.(type) {
+				case *ast.IfStmt:
+					guard, body = []ast.Node{x.Cond}, x.Body.List
+				case *ast.CaseClause:
+					for _, e := range x.List {
+						guard = append(guard, e)
+					}
+					body = x.Body
+				default:
 					return true
 				}
-				se, ok := c.Fun.(*ast.SelectorExpr)
-				if !ok || se.Sel.Name != "NewEvent" || len(c.Args) < 2 {
-					return true
-				}
-				found = true
-				// the records argument must be a fresh slice: append(<not recs>, recs...) — not the worker's own `recs`
-				if ap, ok := c.Args[1].(*ast.CallExpr); ok {
-					if id, ok := ap.Fun.(*ast.Ident); ok && id.Name == "append" && len(ap.Args) == 2 && ap.Ellipsis.IsValid() {
-						if first, isId := ap.Args[0].(*ast.Ident); !isId || first.Name != "recs" {
-							ownSlice = true
+				has := func(name string) bool {
+					for _, g := range guard {
+						if flowMentions(g, name) {
+							return true
 						}
+					}
+					return false
+				}
+				if has("EOF") && !has("ErrBufferFull") {
+					found = true
+				}
+				if len(body) == 0 {
+					return true
+				}
+				ret, isRet := body[len(body)-1].(*ast.ReturnStmt)
+				if !isRet || len(ret.Results) != 2 {
+					return true
+				}
+				if has("EOF") && !has("ErrBufferFull") {
+					assignsPend := false
+					for _, st := range body {
+						if as, ok := st.(*ast.AssignStmt); ok && len(as.Lhs) == 1 {
+							if se, ok := as.Lhs[0].(*ast.SelectorExpr); ok && se.Sel.Name == "pend" {
+								assignsPend = true
+							}
+						}
+					}
+					if assignsPend && flowMentions(ret.Results[0], "nil") && flowMentions(ret.Results[1], "EOF") {
+						eofKeeps = true
+					}
+				}
+				if has("ErrBufferFull") && has("nil") && !has("EOF") {
+					if !flowMentions(ret.Results[0], "nil") && flowMentions(ret.Results[1], "nil") {
+						lineReturn = true
 					}
 				}
 				return true
 			})
 			if !found {
-				problem("scanner.worker.sendOrSleep: model.NewEvent call not found")
+				problem("parser.lineReader.readLine: no branch on io.EOF found")
 			}
-		}
-		l.p("/-- `sendOrSleep` hands `model.NewEvent` a fresh copy of the record slice (`append(<new>, recs...)`), not the")
-		l.p("worker's own `recs`, which `run` clears and reuses (fix 0585c11) -/")
-		l.p("def eventGetsOwnRecordSlice : Bool := %s", leanBool(ownSlice))
-
-		// --- fix 7a8317a: readLine keeps a partial line in r.pend and reports io.EOF; it does not sleep ----------------
-		keepsPartial := false
-		if lrf := parseFile("pkg/scanner/parser/line_reader.go"); lrf != nil {
-			if rl := funcDecl(lrf, "lineReader", "readLine"); rl == nil {
-				problem("parser.lineReader.readLine not found")
-			} else {
-				sleeps, eofKeeps, lineReturn := false, false, false
-				mentions := func(n ast.Node, name string) bool {
-					found := false
-					ast.Inspect(n, func(m ast.Node) bool {
-						if id, ok := m.(*ast.Ident); ok && id.Name == name {
-							found = true
-						}
-						return true
-					})
-					return found
-				}
-				ast.Inspect(rl.Body, func(n ast.Node) bool {
-					if c, ok := n.(*ast.CallExpr); ok {
-						if se, ok := c.Fun.(*ast.SelectorExpr); ok && se.Sel.Name == "Sleep" {
-							sleeps = true
-						}
-					}
-					ifs, ok := n.(*ast.IfStmt)
-					if !ok || len(ifs.Body.List) == 0 {
-						return true
-					}
-					last, isRet := ifs.Body.List[len(ifs.Body.List)-1].(*ast.ReturnStmt)
-					if !isRet || len(last.Results) != 2 {
-						return true
-					}
-					if mentions(ifs.Cond, "EOF") && !mentions(ifs.Cond, "ErrBufferFull") {
-						// `r.pend = line; return nil, io.EOF`
-						assignsPend := false
-						for _, st := range ifs.Body.List {
-							if as, ok := st.(*ast.AssignStmt); ok && len(as.Lhs) == 1 {
-								if se, ok := as.Lhs[0].(*ast.SelectorExpr); ok && se.Sel.Name == "pend" {
-									assignsPend = true
-								}
-							}
-						}
-						if assignsPend && mentions(last.Results[0], "nil") && mentions(last.Results[1], "EOF") {
-							eofKeeps = true
-						}
-					}
-					if mentions(ifs.Cond, "ErrBufferFull") && mentions(ifs.Cond, "nil") && !mentions(ifs.Cond, "EOF") {
-						if mentions(last.Results[0], "line") && mentions(last.Results[1], "nil") {
-							lineReturn = true
-						}
-					}
-					return true
-				})
-				keepsPartial = eofKeeps && lineReturn && !sleeps
-			}
+			keepsPartial = eofKeeps && lineReturn && !sleeps
 		}
 		l.p("/-- `lineReader.readLine`: a complete line or a full buffer returns the line; on a source EOF the partial line is")
 		l.p("kept in `r.pend` and `io.EOF` is returned; the function does not sleep (fix 7a8317a) -/")
 		l.p("def readerKeepsPartialReportsEOF : Bool := %s", leanBool(keepsPartial))
 
-		// --- parsers: pos += int64(len(line)) --------------------------------------------------------------
+		// --- parsers: pos advances by the length of the line readLine returned -----------------------------------------
 		posOK := true
-		for _, pf := range [][2]string{{"pkg/scanner/parser/pure_parser.go", "pureParser"}, {"pkg/scanner/parser/line_parser.go", "lineParser"},
-			{"pkg/scanner/parser/k8s_parser.go", "K8sJsonLogParser"}, {"pkg/scanner/parser/logfmt_parser.go", "logfmtParser"}} {
-			f := parseFile(pf[0])
-			fd := funcDecl(f, pf[1], "NextRecord")
+		for _, recv := range []string{"pureParser", "lineParser", "K8sJsonLogParser", "logfmtParser"} {
+			fd := pp.method(recv, "NextRecord")
 			if fd == nil {
-				problem("%s.NextRecord not found", pf[1])
+				problem("%s.NextRecord not found", recv)
 				posOK = false
 				continue
 			}
-			ok := false
+			// the variable that receives readLine's first result
+			lineVar := ""
 			ast.Inspect(fd.Body, func(n ast.Node) bool {
-				as, isAs := n.(*ast.AssignStmt)
-				if !isAs || as.Tok != token.ADD_ASSIGN || len(as.Lhs) != 1 || len(as.Rhs) != 1 {
-					return true
-				}
-				if se, isSel := as.Lhs[0].(*ast.SelectorExpr); !isSel || se.Sel.Name != "pos" {
-					return true
-				}
-				// int64(len(line))
-				if conv, isCall := as.Rhs[0].(*ast.CallExpr); isCall && len(conv.Args) == 1 {
-					if id, isId := conv.Fun.(*ast.Ident); isId && id.Name == "int64" {
-						if ln, isLen := conv.Args[0].(*ast.CallExpr); isLen && len(ln.Args) == 1 {
-							if lid, isId2 := ln.Fun.(*ast.Ident); isId2 && lid.Name == "len" {
-								if arg, isId3 := ln.Args[0].(*ast.Ident); isId3 && arg.Name == "line" {
-									ok = true
-								}
-							}
+				if as, ok := n.(*ast.AssignStmt); ok && len(as.Rhs) == 1 && len(as.Lhs) >= 1 {
+					if c, ok := as.Rhs[0].(*ast.CallExpr); ok && flowCallee(c) == "readLine" {
+						if id, ok := as.Lhs[0].(*ast.Ident); ok {
+							lineVar = id.Name
 						}
 					}
 				}
 				return true
 			})
-			if !ok {
+			if lineVar == "" {
+				problem("%s.NextRecord: no `line, err := ….readLine(…)` found", recv)
+				posOK = false
+				continue
+			}
+			isLenOfLine := func(e ast.Expr) bool { // int64(len(line))
+				conv, ok := e.(*ast.CallExpr)
+				if !ok || len(conv.Args) != 1 || flowCallee(conv) != "int64" {
+					return false
+				}
+				ln, ok := conv.Args[0].(*ast.CallExpr)
+				if !ok || len(ln.Args) != 1 || flowCallee(ln) != "len" {
+					return false
+				}
+				id, ok := ln.Args[0].(*ast.Ident)
+				return ok && id.Name == lineVar
+			}
+			ok, nPos := false, 0
+			ast.Inspect(fd.Body, func(n ast.Node) bool {
+				as, isAs := n.(*ast.AssignStmt)
+				if !isAs || len(as.Lhs) != 1 || len(as.Rhs) != 1 {
+					return true
+				}
+				se, isSel := as.Lhs[0].(*ast.SelectorExpr)
+				if !isSel || se.Sel.Name != "pos" {
+					return true
+				}
+				nPos++
+				switch as.Tok {
+				case token.ADD_ASSIGN:
+					ok = isLenOfLine(as.Rhs[0])
+				case token.ASSIGN: // x.pos = x.pos + int64(len(line))
+					if be, isBin := as.Rhs[0].(*ast.BinaryExpr); isBin && be.Op == token.ADD {
+						if l2, isSel2 := be.X.(*ast.SelectorExpr); isSel2 && l2.Sel.Name == "pos" && isLenOfLine(be.Y) {
+							ok = true
+						}
+						if r2, isSel2 := be.Y.(*ast.SelectorExpr); isSel2 && r2.Sel.Name == "pos" && isLenOfLine(be.X) {
+							ok = true
+						}
+					}
+				}
+				return true
+			})
+			if nPos == 0 {
+				problem("%s.NextRecord: no assignment to the position found", recv)
+			}
+			if !ok || nPos != 1 {
 				posOK = false
 			}
 		}
@@ -324,190 +315,170 @@ func init() {
 		l.p("def recordMaxSizeMin : Nat := %d", lo)
 		l.p("def recordMaxSizeMax : Nat := %d", hi)
 
-		// --- runPersistState: a persist after the tick loop (the final persist) ---------------------------
-		sf := parseFile("pkg/scanner/scanner.go")
-		finalPersist := false
-		if fd := funcDecl(sf, "Scanner", "runPersistState"); fd != nil {
-			ast.Inspect(fd.Body, func(n ast.Node) bool {
-				fl, ok := n.(*ast.FuncLit)
-				if !ok {
-					return true
-				}
-				seenLoop := false
-				for _, st := range fl.Body.List {
-					if _, ok := st.(*ast.ForStmt); ok {
-						seenLoop = true
-						continue
-					}
-					if seenLoop {
-						ast.Inspect(st, func(m ast.Node) bool {
-							if c, ok := m.(*ast.CallExpr); ok {
-								if se, ok := c.Fun.(*ast.SelectorExpr); ok && se.Sel.Name == "persistState" {
-									finalPersist = true
-								}
-							}
-							return true
-						})
-					}
-				}
+		// --- the persist job: a final persist after the tick loop, after waitWg.Wait(); workers are in waitWg, the job is
+		//     not (fix c6aad9a) ----------------------------------------------------------------------------------------
+		finalPersist, waitBeforeFinal, persistJobInWaitWg, workerInWaitWg := false, false, false, false
+		wgCall := func(e flowEv, wg, method string) bool {
+			if e.kind != "call" || e.name != method {
 				return false
-			})
-		} else {
+			}
+			se, ok := e.call.Fun.(*ast.SelectorExpr)
+			if !ok {
+				return false
+			}
+			inner, ok := se.X.(*ast.SelectorExpr)
+			return ok && inner.Sel.Name == wg
+		}
+		if fd := sp.method("Scanner", "runPersistState"); fd == nil {
 			problem("scanner.Scanner.runPersistState not found")
+		} else {
+			evs := sp.flatten(fd, 2)
+			// the job = what runs inside the `go` statement: events whose ancestors include a GoStmt (or the whole function
+			// if the goroutine is started by the caller)
+			lastInLoop, finalAt, waitAt := -1, -1, -1
+			for i, e := range evs {
+				if wgCall(e, "waitWg", "Add") || wgCall(e, "waitWg", "Done") {
+					persistJobInWaitWg = true
+				}
+				if e.kind == "call" && e.name == "persistState" {
+					if len(e.loops) > 0 {
+						lastInLoop = i
+					} else if lastInLoop >= 0 {
+						finalAt = i
+					}
+				}
+			}
+			if lastInLoop < 0 {
+				problem("scanner.Scanner.runPersistState: no periodic persistState call in a loop found")
+			}
+			for i, e := range evs {
+				if wgCall(e, "waitWg", "Wait") && len(e.loops) == 0 && i > lastInLoop && (finalAt < 0 || i < finalAt) {
+					waitAt = i
+				}
+			}
+			finalPersist = finalAt >= 0
+			waitBeforeFinal = finalAt >= 0 && waitAt >= 0
+		}
+		if fd := sp.method("Scanner", "runWorker"); fd == nil {
+			problem("scanner.Scanner.runWorker not found")
+		} else {
+			evs := sp.flatten(fd, 0)
+			addAt, runAt, doneAt := -1, -1, -1
+			for i, e := range evs {
+				inGo := false
+				for _, a := range e.anc {
+					if _, ok := a.(*ast.GoStmt); ok {
+						inGo = true
+					}
+				}
+				switch {
+				case wgCall(e, "waitWg", "Add") && !inGo:
+					addAt = i
+				case e.kind == "call" && e.name == "run" && inGo:
+					runAt = i
+				case wgCall(e, "waitWg", "Done") && inGo:
+					doneAt = i
+				}
+			}
+			if runAt < 0 {
+				problem("scanner.Scanner.runWorker: no goroutine calling the worker's run found")
+			}
+			workerInWaitWg = addAt >= 0 && runAt > addAt && doneAt > runAt
 		}
 		l.p("/-- `runPersistState` persists once more after its tick loop ended (the final persist) -/")
 		l.p("def finalPersistAfterLoop : Bool := %s", leanBool(finalPersist))
-
-		// --- fix c6aad9a: the final persist comes after `s.waitWg.Wait()`; workers are in waitWg, the persist job is not -----
-		waitBeforeFinal, persistJobInWaitWg, workerInWaitWg := false, false, false
-		wgCall := func(n ast.Node, wg, method string) bool {
-			found := false
-			ast.Inspect(n, func(m ast.Node) bool {
-				if c, ok := m.(*ast.CallExpr); ok {
-					if se, ok := c.Fun.(*ast.SelectorExpr); ok && se.Sel.Name == method {
-						if inner, ok := se.X.(*ast.SelectorExpr); ok && inner.Sel.Name == wg {
-							found = true
-						}
-					}
-				}
-				return true
-			})
-			return found
-		}
-		if fd := funcDecl(sf, "Scanner", "runPersistState"); fd != nil {
-			if wgCall(fd.Body, "waitWg", "Add") || wgCall(fd.Body, "waitWg", "Done") {
-				persistJobInWaitWg = true
-			}
-			ast.Inspect(fd.Body, func(n ast.Node) bool {
-				fl, ok := n.(*ast.FuncLit)
-				if !ok {
-					return true
-				}
-				seenLoop, seenWait := false, false
-				for _, st := range fl.Body.List {
-					if _, ok := st.(*ast.ForStmt); ok {
-						seenLoop = true
-						continue
-					}
-					if !seenLoop {
-						continue
-					}
-					if wgCall(st, "waitWg", "Wait") {
-						seenWait = true
-						continue
-					}
-					isPersist := false
-					ast.Inspect(st, func(m ast.Node) bool {
-						if c, ok := m.(*ast.CallExpr); ok {
-							if se, ok := c.Fun.(*ast.SelectorExpr); ok && se.Sel.Name == "persistState" {
-								isPersist = true
-							}
-						}
-						return true
-					})
-					if isPersist {
-						waitBeforeFinal = seenWait
-						break
-					}
-				}
-				return false
-			})
-		}
-		if fd := funcDecl(sf, "Scanner", "runWorker"); fd != nil {
-			// `s.waitWg.Add(1)` before the goroutine, `s.waitWg.Done()` after `w.run` inside it
-			addOutside := false
-			for _, st := range fd.Body.List {
-				if _, isGo := st.(*ast.GoStmt); !isGo && wgCall(st, "waitWg", "Add") {
-					addOutside = true
-				}
-				if gs, isGo := st.(*ast.GoStmt); isGo {
-					if fl, ok := gs.Call.Fun.(*ast.FuncLit); ok {
-						ranAt, doneAt := -1, -1
-						for i, b := range fl.Body.List {
-							ast.Inspect(b, func(m ast.Node) bool {
-								if c, ok := m.(*ast.CallExpr); ok {
-									if se, ok := c.Fun.(*ast.SelectorExpr); ok && se.Sel.Name == "run" && ranAt < 0 {
-										ranAt = i
-									}
-								}
-								return true
-							})
-							if wgCall(b, "waitWg", "Done") {
-								doneAt = i
-							}
-						}
-						workerInWaitWg = addOutside && ranAt >= 0 && doneAt > ranAt
-					}
-				}
-			}
-		} else {
-			problem("scanner.Scanner.runWorker not found")
-		}
 		l.p("/-- the final persist of `runPersistState` comes after `s.waitWg.Wait()`; every worker goroutine is in `waitWg`")
 		l.p("(Add before `go`, Done after `w.run` returned) and the persist job itself is not (fix c6aad9a) -/")
 		l.p("def finalPersistAfterWorkersWait : Bool := %s", leanBool(waitBeforeFinal && workerInWaitWg && !persistJobInWaitWg))
 
-		// --- fix f247e22: mergeDescs reads the offset once and stats again when it is beyond the scanned size ----------------
+		// --- mergeDescs: the live offset is read once per descriptor; when it is beyond the scanned size the file is
+		//     stat'ed again and LastSeenSize refreshed from that stat, before the decision (fix f247e22) ----------------
 		restat := false
-		if fd := funcDecl(sf, "Scanner", "mergeDescs"); fd != nil {
-			ast.Inspect(fd.Body, func(n ast.Node) bool {
-				rs, ok := n.(*ast.RangeStmt)
-				if !ok || restat {
-					return true
-				}
-				offAt, statAt, condAt := -1, -1, -1
-				getOffsetCalls := 0
-				ast.Inspect(rs.Body, func(m ast.Node) bool {
-					if c, ok := m.(*ast.CallExpr); ok {
-						if se, ok := c.Fun.(*ast.SelectorExpr); ok && se.Sel.Name == "getOffset" {
-							getOffsetCalls++
-						}
-					}
-					return true
-				})
-				usesIdent := func(n ast.Node, name string) bool {
-					found := false
-					ast.Inspect(n, func(m ast.Node) bool {
-						if id, ok := m.(*ast.Ident); ok && id.Name == name {
-							found = true
-						}
-						return true
-					})
-					return found
-				}
-				for i, st := range rs.Body.List {
-					if as, ok := st.(*ast.AssignStmt); ok && len(as.Lhs) == 1 && offAt < 0 {
-						if id, ok := as.Lhs[0].(*ast.Ident); ok && id.Name == "off" {
-							offAt = i
-						}
-					}
-					if ifs, ok := st.(*ast.IfStmt); ok {
-						callsStat := false
-						ast.Inspect(ifs.Body, func(m ast.Node) bool {
-							if c, ok := m.(*ast.CallExpr); ok {
-								if se, ok := c.Fun.(*ast.SelectorExpr); ok && se.Sel.Name == "Stat" {
-									callsStat = true
-								}
-							}
-							return true
-						})
-						if callsStat && usesIdent(ifs.Cond, "off") && statAt < 0 {
-							statAt = i
-						}
-						if !callsStat && usesIdent(ifs.Cond, "off") && usesIdent(ifs.Cond, "LastSeenSize") && statAt >= 0 && condAt < 0 {
-							condAt = i
-						}
-					}
-				}
-				restat = offAt >= 0 && statAt > offAt && condAt > statAt && getOffsetCalls == 1
-				return true
-			})
-		} else {
+		if fd := sp.method("Scanner", "mergeDescs"); fd == nil {
 			problem("scanner.Scanner.mergeDescs not found")
+		} else {
+			evs := sp.flatten(fd, 2)
+			iOff := flowIndex(evs, "call", "getOffset")
+			if iOff < 0 || len(evs[iOff].loops) == 0 {
+				problem("scanner.Scanner.mergeDescs: no getOffset call inside the merge loop found")
+			} else {
+				loop := evs[iOff].loops[0]
+				nOff, statAt, sizeAt := 0, -1, -1
+				for i, e := range evs {
+					if !flowInLoop(e, loop) {
+						continue
+					}
+					if e.kind == "call" && e.name == "getOffset" {
+						nOff++
+					}
+					if e.kind == "call" && e.name == "Stat" && i > iOff && statAt < 0 && len(e.inGuard) > 0 {
+						statAt = i
+					}
+					if e.kind == "assign" && flowHasSuffix(e.name, ".LastSeenSize") && statAt >= 0 && i > statAt && flowCallsNamed(e.assign, "Size") {
+						sizeAt = i
+					}
+				}
+				restat = nOff == 1 && statAt > iOff && sizeAt > statAt
+			}
 		}
-		l.p("/-- `mergeDescs` reads the live offset once into a local, stats the file again when that offset is beyond the")
-		l.p("scanned size, and decides with the local (fix f247e22) -/")
+		l.p("/-- `mergeDescs` reads the live offset once per descriptor, stats the file again (conditionally) after that read")
+		l.p("and refreshes `LastSeenSize` from that stat before it decides (fix f247e22) -/")
 		l.p("def mergeRestatsAfterOffset : Bool := %s", leanBool(restat))
 		l.write()
 	}
+}
+
+func flowHasSuffix(s, suf string) bool { return len(s) >= len(suf) && s[len(s)-len(suf):] == suf }
+
+// freshSlice: 1 = the expression is a freshly built slice (append(<non-identifier>, x...), make(...), a composite
+// literal, or a local assigned from one of those), 0 = it is a parameter or a plain variable of the caller (shared),
+// -1 = cannot tell.
+func freshSlice(e ast.Expr, fd *ast.FuncDecl) int {
+	switch x := e.(type) {
+	case *ast.CompositeLit:
+		return 1
+	case *ast.CallExpr:
+		switch flowCallee(x) {
+		case "make":
+			return 1
+		case "append":
+			if len(x.Args) >= 1 {
+				if _, isId := x.Args[0].(*ast.Ident); !isId {
+					return 1
+				}
+				if id := x.Args[0].(*ast.Ident); id.Name == "nil" {
+					return 1
+				}
+			}
+			return 0
+		}
+		return -1
+	case *ast.Ident:
+		if fd.Type.Params != nil {
+			for _, p := range fd.Type.Params.List {
+				for _, n := range p.Names {
+					if n.Name == x.Name {
+						return 0 // the caller's slice
+					}
+				}
+			}
+		}
+		res := -1
+		ast.Inspect(fd.Body, func(n ast.Node) bool {
+			if as, ok := n.(*ast.AssignStmt); ok {
+				for i, l := range as.Lhs {
+					if id, ok := l.(*ast.Ident); ok && id.Name == x.Name && i < len(as.Rhs) {
+						if r := freshSlice(as.Rhs[i], fd); r != -1 || res == -1 {
+							if _, self := as.Rhs[i].(*ast.Ident); !self {
+								res = r
+							}
+						}
+					}
+				}
+			}
+			return true
+		})
+		return res
+	}
+	return -1
 }
